@@ -14,7 +14,7 @@ RULE = ("histories over {add(rxn, requested time), read-and-advance, copy, parti
 ASSUMPTIONS = ["requested times are never exactly half-way between two grid times", "grid steps are exactly representable"]
 RUN_OPTS = {"batch_size": 4, "timeout_per_case": 120.0}
 EXHAUSTIVE = {"quick": True, "thorough": True}
-MINIMA = {"*": {"histories": 1000, "nontrivial_histories": 1000, "reads_compared": 5000}}
+MINIMA = {"*": {"histories": 1000, "nontrivial_histories": 1000, "reads_compared": 5000, "same_clock_sets": 50}}
 SANITIZE_TIERS = ("thorough",)
 
 RELS = [-1.3, 0.0, 0.4, 0.6, 1.0, "last+0.3", "beyond"]
@@ -142,6 +142,12 @@ class Run:
             q.py_set_current_time(op[1])
             m.set_current_time(op[1])
             return None
+        if kind == "setclock_same":
+            # telling a queue the time it is already at (what a simulator does when a run is continued with the queue an
+            # earlier run returned) changes nothing: pending entries keep their delivery times
+            q.py_set_current_time(m.clock - m.dt)
+            self.same_clock_sets = getattr(self, "same_clock_sets", 0) + 1
+            return None
         raise ValueError(op)
 
     def read(self, qi):
@@ -203,6 +209,8 @@ def rand_history(rnd, R, cols, maxlen=80):
             nq += 1
         elif u < 0.97:
             ops.append(["switch", rnd.randrange(8)])
+        elif u < 0.985:
+            ops.append(["setclock_same"])
         else:
             ops.append(["adv"])
     return ops
@@ -219,6 +227,7 @@ def run_case(case):
     def record(run, err, ops, meta):
         C["histories"] += 1
         C["reads_compared"] += run.reads
+        C["same_clock_sets"] = C.get("same_clock_sets", 0) + getattr(run, "same_clock_sets", 0)
         C["ops"] += len(ops)
         if getattr(run, "nt", False):
             C["nontrivial_histories"] += 1
